@@ -28,6 +28,14 @@ def ev_nonterm(t, y, **kw):
     return y[1] + 0.2
 
 
+def ev_early_up(t, y, **kw):
+    return y[0] - 1.003          # crossed inside the first step of a forward run from y0 = (1, 0.25)
+
+
+def ev_early_down(t, y, **kw):
+    return y[0] - 0.997          # ... of a backward run
+
+
 class Boom(Exception):
     pass
 
@@ -136,14 +144,21 @@ def run(ctx):
             ok_reset = (len(o.t) == 1 and float(o.t[0]) == sc["t0"] and np.array_equal(o.y[0], y0_copy) and len(o.events) == 0
                         and o.nfev == 0 and o.njev == 0 and loopsim.status_code(o) == 0 and (o.sol is None or len(o.sol) == 0))
             ctx.oracle("reset-state", bool(ok_reset), inp, what="after reset: t=%s events=%d nfev=%d njev=%d status=%r" % (o.t, len(o.events), o.nfev, o.njev, o.integration_status))
-            o.integrate()
+            # every other scenario re-runs with (non-terminal) events, one of them crossed inside the first step
+            evs = None if i % 2 == 0 else [ev_nonterm, ev_early_up if settings["tf"] > sc["t0"] else ev_early_down]
+            o.integrate(events=evs)
             f = de.OdeSystem(rhs, y0=y0_copy.copy(), t=(sc["t0"], settings["tf"]), dt=sc["dt"], dense_output=sc["dense"],
                              rtol=settings["rtol"], atol=settings["atol"], constants=dict(k=1.5))
             f.set_method(getattr(I, settings["method"]), staggered_mask=None if settings["kick"] is None else np.array(settings["kick"]))
-            f.integrate()
+            f.integrate(events=evs)
             same = np.array_equal(o.t, f.t) and np.array_equal(o.y, f.y) and o.nfev in (f.nfev, f.nfev - 1)  # the constructor's shape probe is one call
             ctx.oracle("reset-then-rerun-equals-fresh", bool(same), inp,
                        what="re-run after reset differs from a fresh system: %d vs %d samples, end %r vs %r, nfev %d vs %d" % (len(o.t), len(f.t), o.y[-1], f.y[-1], o.nfev, f.nfev))
+            if evs is not None:
+                eo, ef = [float(e.t) for e in o.events], [float(e.t) for e in f.events]
+                ctx.oracle("reset-then-rerun-equals-fresh", eo == ef, dict(inp, events_after_reset=eo[:6], events_fresh=ef[:6]), key="reset-then-rerun-events",
+                           what="events of the re-run after reset %s differ from those of a fresh system %s" % (eo[:5], ef[:5]))
+                ctx.count("rerun:with-events:%d-events" % min(len(ef), 5))
         except Exception as e:
             ctx.oracle("reset-then-rerun-equals-fresh", False, inp, what="reset/re-run raised %r" % (e,))
         kinds = set(op[0] for op in sc["ops"])
@@ -152,6 +167,36 @@ def run(ctx):
         for k in kinds:
             ctx.count("op:" + k)
         ctx.sample(sc, limit=3)
+    # an event-tracking history in one direction, reset(), then an event-tracking run in the other direction (event detection keeps
+    # step interpolants of its own even without dense output: nothing of them may survive a reset)
+    for name in ["RK4Solver", "RK45CKSolver"] + ([] if ctx.quick() else ["DOPRI45", "BackwardEuler"]):
+        for dense in (False, True):
+            for first_dir in (-1, 1):
+                t0 = rng.choice([0.0, 1.0])
+                tf = t0 + 2.0 * (-first_dir)               # the configured span, used after the reset
+                dt = 2.0 / rng.choice([8, 13, 20])
+                early = ev_early_up if tf > t0 else ev_early_down
+                inp = dict(kind="reset-after-event-history", method=name, dense=dense, t0=t0, tf=tf, dt=dt, history_target=t0 + 1.5 * first_dir)
+                try:
+                    def mk():
+                        o = de.OdeSystem(rhs, y0=np.array([1.0, 0.25]), t=(t0, tf), dt=dt, dense_output=dense, rtol=1e-6, atol=1e-8, constants=dict(k=1.5))
+                        o.set_method(getattr(I, name))
+                        return o
+                    o = mk()
+                    o.integrate(t0 + 1.5 * first_dir, events=[ev_nonterm])
+                    o.reset()
+                    o.integrate(events=[early, ev_nonterm])
+                    f = mk()
+                    f.integrate(events=[early, ev_nonterm])
+                except Exception as e:
+                    ctx.oracle("reset-then-rerun-equals-fresh", False, inp, what="raised %r" % (e,))
+                    continue
+                eo, ef = [float(e.t) for e in o.events], [float(e.t) for e in f.events]
+                ctx.oracle("reset-then-rerun-equals-fresh", np.array_equal(o.t, f.t) and np.array_equal(o.y, f.y) and eo == ef,
+                           dict(inp, events_after_reset=eo[:6], events_fresh=ef[:6]), key="reset-then-rerun-events",
+                           what="after an event-tracking history and reset(): events %s, a fresh system finds %s" % (eo[:5], ef[:5]))
+                ctx.count("reset-after-event-history:%s:%d-events" % ("dense" if dense else "plain", min(len(ef), 5)))
+                ctx.nontrivial(("reset-after-event-history", name, dense, first_dir, t0, dt))
     # determinism and split runs
     for i in range(20 if ctx.quick() else 200):
         name = rng.choice(["RK4Solver", "RK45CKSolver", "DOPRI45", "ABAs5o6HSolver", "BackwardEuler"])
